@@ -189,8 +189,11 @@ def region_tags(crate, b, inner):
         if from_inner(b.slice_args(c, [0])):
             e = K.try_edges(b, c)
             if e:
-                out.add(b, "ok", (e[0], e[1]))
-                out.add(b, "err", (e[0], e[2]))
+                # `?` on an Option (`let item = self.it.next()?;`): Continue = Some, Break = None
+                ta = " ".join(c.callee.get("targs") or [])
+                on_option = ta.startswith("std::option::Option<")
+                out.add(b, "some" if on_option else "ok", (e[0], e[1]))
+                out.add(b, "none" if on_option else "err", (e[0], e[2]))
     for sb, t, pl, d in K.discr_switches(b):
         if not from_inner(b.slice(pl, at=sb)):
             continue
